@@ -41,6 +41,9 @@ type BFSOpts struct {
 	Closure func(w World, s *Sched)
 }
 
+// DebugKeys, if set, is called for every new state (development aid).
+var DebugKeys func(key string, ops []string, choices []int)
+
 type hnode struct {
 	ops     []string
 	choices []int
@@ -205,6 +208,9 @@ depthLoop:
 						continue
 					}
 					seen[r.key] = struct{}{}
+					if DebugKeys != nil {
+						DebugKeys(r.key, ops, full)
+					}
 					if len(st.Samples) < 4 && (len(seen)%211 == 7 || (r.nontriv && len(st.Samples) == 0)) {
 						st.Samples = append(st.Samples, map[string]interface{}{"history": ops, "env_choices": full})
 					}
